@@ -68,7 +68,7 @@ func zzSat(target, minChange, total int64) bool {
 
 // ZZ_C19_select: the four selectors on arbitrary small coin lists.
 func ZZ_C19_select() {
-	n := vCase("ncoins", 0, vParam("maxcoins", 3))
+	n := vCase("ncoins", vParam("mincoins", 0), vParam("maxcoins", 3))
 	coins := zzCoins(n)
 	target := vI64("target")
 	minChange := vI64("minchange")
@@ -76,7 +76,7 @@ func ZZ_C19_select() {
 	vAssume(target >= 0 && target <= 1<<52)
 	vAssume(minChange >= 0 && minChange <= 1<<52)
 	vAssume(maxInputs >= -1 && maxInputs <= 6)
-	which := vCase("selector", 0, 3)
+	which := vCase("selector", vParam("minsel", 0), vParam("maxsel", 3))
 	switch which {
 	case 0:
 		sel, err := MinIndexCoinSelector{MaxInputs: maxInputs, MinChangeAmount: bchutil.Amount(minChange)}.CoinSelect(bchutil.Amount(target), coins)
